@@ -22,11 +22,15 @@ ASSUMPTIONS = [
     "absolute path elements point into the per-case sandbox (nothing outside scratch can be touched by a failing run)",
     "snapshots compare names, types, sizes and SHA-256 digests of everything in the sandbox outside the destination",
 ]
+FUZZ_RUNS = 40000   # thorough tier: libFuzzer runs per campaign of the coverage-guided stage (vf/fuzz.py)
 BUDGET = {
     "quick": {"examples": 400, "workers": 8, "time_cap": 70},
     "thorough": {"examples": 15000, "workers": 14, "time_cap": 900},
 }
-HOSTILE = ["..", ".", "", "a/../../b", "../x", "ABS", "ABS/sub", "../../..", "a/..", "./..", "..\\..", "x/", "/"]
+# no bare "/" and nothing absolute except ABS (which resolves into the per-case sandbox): a tool that fails this
+# property must still not be able to reach anything outside the scratch directory
+HOSTILE = ["..", ".", "", "a/../../b", "../x", "ABS", "ABS/sub", "../../..", "a/..", "./..", "..\\..", "x/", "//x"]
+MAX_CLIMB = 7     # the destination sits 8 levels below the sandbox root
 BENIGN = ["a", "b", "dir", "evil.txt", "f.bin"]
 # siblings of the destination whose names merely *start with* the destination's name (string-prefix containment tests accept them)
 SIBLINGS = ["dest2", "dest.bak", "dest-old"]
@@ -59,6 +63,46 @@ def strategy(tier):
 
 def _resolve(s, sandbox_root):
     return s.replace("ABS", os.path.join(sandbox_root, "abs-target"))
+
+
+def _cap_climb(name, comps):
+    """Neutralise '..' segments that would take dest/name/comps... above the sandbox root, and absolute segments
+    other than ABS.  Returns (name, comps) with the excess '..' replaced by '.'; pure function of its input."""
+    depth = 0
+    out = []
+    for s in [name] + list(comps):
+        if "ABS" in s:
+            out.append(s)
+            depth = -MAX_CLIMB + 1      # join() restarts at <sandbox>/abs-target: one more '..' still stays inside
+            continue
+        parts = s.split("/")
+        new = []
+        for i, part in enumerate(parts):
+            if part == "" and i == 0 and len(parts) > 1:
+                part = "."          # a leading '/' would make the joined path absolute
+            if part == "..":
+                if depth - 1 < -MAX_CLIMB:
+                    part = "."
+                else:
+                    depth -= 1
+            elif part not in ("", "."):
+                depth += 1
+            new.append(part)
+        out.append("/".join(new))
+    return out[0], out[1:]
+
+
+def capped(case):
+    """The case with every name/path chain limited so that nothing can leave the sandbox."""
+    c = dict(case)
+    files = []
+    name = case["name"]
+    for f in case["files"]:
+        name, comps = _cap_climb(case["name"], f["path"])
+        files.append(dict(f, path=comps))
+    c["name"] = name
+    c["files"] = files
+    return c
 
 
 def build_meta(case, sandbox_root):
@@ -125,6 +169,7 @@ def is_hostile(s):
 
 def run_case(case):
     target.reset()
+    case = capped(case)
     with sandbox.Scratch("c19") as scr:
         deep = os.path.join(scr, *["l%d" % i for i in range(8)])
         dest = os.path.join(deep, "dest")
